@@ -1153,8 +1153,12 @@ def control(ctx, bench, prog, policy, desc):
             # deliverable" holds before any stuck verdict
             w.release_replies(held)
             held = 0
-        if quiet >= stuck_after and not held and not prog.done and bench.server_idle() and len(stack_samples) == 1 \
+        # a stack that was already confirmed stuck twice with the full dwell in this shard is re-confirmed after 3 s
+        need_quiet = 3.0 if (len(stack_samples) == 1 and CONFIRMED_STUCK.get(next(iter(stack_samples)), 0) >= 2) \
+            else stuck_after
+        if quiet >= need_quiet and not held and not prog.done and bench.server_idle() and len(stack_samples) == 1 \
                 and not (waiting and bench.client_idle()):
+            CONFIRMED_STUCK[next(iter(stack_samples))] = CONFIRMED_STUCK.get(next(iter(stack_samples)), 0) + 1
             # DESIGN 2.4 rule 2: link drained, server idle, no byte consumed, same stack for >= 12/20 s, and the
             # client is not even waiting for input (a thread parked in recv is handled below, sooner)
             return stuck(ctx, bench, prog, desc, quiet)
@@ -1200,6 +1204,9 @@ def control(ctx, bench, prog, policy, desc):
             stable_since, stable_key = None, None
         evt.clear()
         evt.wait(0.003)
+
+
+CONFIRMED_STUCK = {}
 
 
 def busy_stack(prog):
@@ -1334,6 +1341,11 @@ def blocked(ctx, bench, prog, desc, nreq, nresp, others):
 def run_client_side(ctx):
     n = ctx.pick(32, 300)
     for i in range(n):
+        if sum(CONFIRMED_STUCK.values()) >= 4:
+            # every stuck verdict leaves an unkillable (possibly spinning) thread behind in this process; the
+            # violation is established, stop before the zombies starve the rest of the shard
+            ctx.count("client_programs_skipped_after_stuck_threads", n - i)
+            break
         client_case(ctx, i)
 
 
